@@ -14,7 +14,7 @@ from simkit.choice import rng_for, Log, pick, weighted
 from simkit.sched import SimAbort
 from simkit.shrink import shrink_list_at, replace_at
 from . import BaseEngine, Violation
-from .ports_conc import make_msg, ident
+from .ports_conc import make_msg, ident, mutate
 
 mido = bootstrap()
 import mido.ports as mports  # noqa: E402
@@ -223,7 +223,8 @@ class Lifecycle(BaseEngine):
         kind = pick(rng, [k for k in KINDS if k not in self.avoid])
         plan = {'prop': prop, 'kind': kind, 'autoreset': rng.random() < 0.4,
                 'sleep_time': pick(rng, (1e-4, 1e-3, 1e-2, 0.5)), 'start_time': pick(rng, (0.0, 100.0, 1.7e9)),
-                'perms': [rng.randrange(3) for _ in range(4)], 'yield_ports': rng.random() < 0.3}
+                'perms': [rng.randrange(3) for _ in range(4)], 'yield_ports': rng.random() < 0.3,
+                'consumer_mutates': rng.random() < 0.3}
         if kind == 'multi':
             n = rng.randint(1, 3)
             plan['subs'] = [{'kind': 'dev_io', 'dev': self._gen_dev(rng)} for _ in range(n)]
@@ -395,6 +396,8 @@ class Lifecycle(BaseEngine):
                 raise Violation(f'fifo@{where}', f'{where} returned {m!r}; next taken-in message of stream {s} is '
                                                  f'{exp!r} (handed out {out[s]} of {len(q)})')
             out[s] += 1
+            if plan.get('consumer_mutates'):
+                mutate(m)       # the caller edits what it received; later messages must not care
 
         def call(where, fn, *a, expect=()):
             c0, s0 = clock.now, clock.sleep_calls
